@@ -638,6 +638,32 @@ func (h *Hist) ActTimedPillarRevoke() {
 		definition.ABIPillars.PackMethodPanic(definition.RevokeMethodName, p.Name), "timed pillar.Revoke("+p.Name+")")
 }
 
+// ActTimedSentinelRevoke: the owner of an active sentinel revokes it inside (or just before / after) its revoke window.
+func (h *Hist) ActTimedSentinelRevoke() {
+	c := h.C
+	var active []*definition.SentinelInfo
+	for _, s := range definition.GetAllSentinelInfo(h.A.Chain.GetFrontierAccountStore(types.SentinelContract).Storage()) {
+		if s.RevokeTimestamp == 0 && h.W.Keys.ByAddr[s.Owner] != nil {
+			active = append(active, s)
+		}
+	}
+	if len(active) == 0 {
+		return
+	}
+	s := active[c.Pick("tsr.idx", len(active))]
+	cycle := constants.SentinelLockTimeWindow + constants.SentinelRevokeTimeWindow
+	el := (h.A.Frontier().Timestamp.Unix() - s.RegistrationTimestamp) % cycle
+	if el < constants.SentinelLockTimeWindow {
+		skip := int((constants.SentinelLockTimeWindow-el)/10) + c.Int("tsr.offset", -2, 3)
+		if skip < 0 {
+			skip = 0
+		}
+		h.Produce(skip)
+	}
+	h.ActCall(s.Owner, types.SentinelContract, types.ZnnTokenStandard, big.NewInt(0),
+		definition.ABISentinel.PackMethodPanic(definition.RevokeSentinelMethodName), "timed sentinel.Revoke by "+short(s.Owner))
+}
+
 // projectOwner returns the creator of the project whose id is the hash of its creating send.
 func (h *Hist) projectOwner(id types.Hash) (types.Address, bool) {
 	for _, s := range h.Sends {
